@@ -9,6 +9,12 @@ if VERIF not in sys.path:
 
 _CURRENT = {"dir": None, "variant": None}
 
+# VERIF_REPO (default /repo) lets the same checks run against another checkout of the package, e.g. a scratch
+# worktree carrying a seeded change, without touching /repo; its libraries are built into a separate directory.
+REPO = os.environ.get("VERIF_REPO", "/repo")
+if REPO != "/repo" and REPO not in sys.path:
+    sys.path.insert(0, REPO)
+
 
 def det_env(env=None):
     env = dict(os.environ if env is None else env)
@@ -19,6 +25,8 @@ def det_env(env=None):
     env["PYTHONHASHSEED"] = "0"
     env.setdefault("NUMBA_CACHE_DIR", os.path.join(VERIF, "build", "numba_cache"))
     env["PYTHONDONTWRITEBYTECODE"] = "1"
+    if env.get("VERIF_REPO", "/repo") != "/repo":
+        env["PYTHONPATH"] = env["VERIF_REPO"] + (":" + env["PYTHONPATH"] if env.get("PYTHONPATH") else "")
     env.setdefault("PYTHONWARNINGS", "ignore")
     return env
 
